@@ -557,12 +557,12 @@ func c14Late(c *Ctx, cs c14Case) {
 	// hold the applier on an item for key 2 through the gate; chain the sweep observer behind it
 	g := lab.NewGate(l)
 	hash0 := l.Hashes[0][0]
-	g.Other = func(point int, arg uint64) {
+	g.SetOther(func(point int, arg uint64) {
 		if point == ristretto.VPApplierItemDone && arg == hash0 {
 			l.LogHook(point, arg)
 		}
 		e.sw.hook(point, arg)
-	}
+	})
 	x := cl.NextVal(2)
 	cl.Set(2, x, 1, 0)
 	if err := g.AwaitHeld(); err != nil {
